@@ -82,6 +82,10 @@ claim("C15", "Coq proof (compare is an order on canonical UTF-8; search_chunk re
       "Proof: unbounded in entries, chunk sizes, densities, index depth and lookup history; the chunk layout (wfc) and sortedness are hypotheses shown satisfiable on a sample CHM produced by the generator the checks use, and sortedness is derived for every directory of canonical UTF-8 names in increasing order. The lower-casing function is a parameter (the C library's towlower in the C locale is ASCII-only, which is what the extracted model uses). Tie and search: model (with cache) vs C on lookup sessions; every listed name, case variants, near misses, absent names in shuffled orders after open() and fast_open().",
       NOTE, "4/C15")
 
+claim("C06", "Coq proof (window-bits selection, CRC table and chunking, container correctness of decompress / decompress_incremental for every block list, parametric in the block decoder) + extracted model of oabd.c vs the C library",
+      "Proof: for every list of stored / LZX blocks, padding, trailing bytes and buffer size the model of oabd.c returns exactly the concatenated data, provided each block's stream decodes to its data under the window oabd.c selects - the LZX DELTA decoder itself is not proved correct against an encoder (partial): it is the port of lzxd.c tied to the C code by correspondence on generated streams (reference-data matches, extended lengths, per-frame chunk sizes). Search: generator targets vs C output with block sizes aimed at the window-size boundaries, buffer sizes 16..65536, plus damaged inputs for the correspondence.",
+      NOTE, "4/C06")
+
 def main():
     props = [json.loads(l)["id"] for l in open(os.path.join(V, "properties.jsonl"))]
     # only claim what has a check module
